@@ -536,7 +536,7 @@ func init() {
 			&engine.Enum[c11ShapeCase]{
 				Name: "header-shapes",
 				Rule: "case = stream_id (all 256) x low six bits of the first flag byte (scrambling, priority, alignment, copyright, original: 6 patterns, thorough 36); Check builds every combination of PTS_DTS_flags {00,10,11} x timestamp pairs (7 boundary pairs, thorough 12) x other optional fields {none, ESCR+ES_rate+trick+copy_info+CRC+extension} (thorough: also each field alone and 3 extension variants) x header stuffing {0,1,2,3, up to PES_header_data_length 255} x payload {0,1,5 bytes} x PES_packet_length {consistent, 0, 0xFFFF}; ids with optional header: prefix, stream id, DataAligned, HasPTS/HasDTS, PTS/DTS values, Data() vs. the builder's data offset; the 7 ids without optional header: the same bytes (plus cuts to 1,2,3,5 data bytes) must come back from offset 6; 0xBC: prefix and id only; every prefix of the header is executed for panics only; non-trivial = each distinct byte string judged",
-				Gen:  c11GenShapes, Check: c11CheckShapes, Batch: 1,
+				Gen:  c11GenShapes, Check: witnessEnum(c11CheckShapes, witnessPES), Batch: 1,
 			},
 			&engine.Enum[c11TSCase]{
 				Name: "timestamps",
@@ -560,7 +560,7 @@ func init() {
 						emit(c11PktCase{id, r.Thorough()})
 					}
 				},
-				Check: c11CheckPackets, Batch: 1,
+				Check: witnessEnum(c11CheckPackets, witnessPES), Batch: 1,
 			},
 		},
 	})
